@@ -77,6 +77,13 @@ type half struct {
 	coalesceAt time.Time
 }
 
+func (h *half) window() int {
+	if h.cfg.Window > 0 {
+		return h.cfg.Window
+	}
+	return 256 << 10
+}
+
 // Conn is one end of a simulated stream connection.
 type Conn struct {
 	in, out       *half
@@ -102,6 +109,9 @@ func Pipe(a, b net.Addr, ab, ba LinkCfg) (*Conn, *Conn) {
 
 func (c *Conn) LocalAddr() net.Addr  { return c.local }
 func (c *Conn) RemoteAddr() net.Addr { return c.remote }
+
+// SetOutLink changes the configuration of the direction this end writes.
+func (c *Conn) SetOutLink(cfg LinkCfg) { c.out.cfg = cfg }
 
 // TapOut installs a wire tap on the bytes this end writes (as accepted).
 func (c *Conn) TapOut(f func(p []byte)) { c.out.Tap = f }
@@ -149,7 +159,9 @@ func (c *Conn) Read(p []byte) (int, error) {
 			if len(h.buf) == 0 {
 				h.buf = nil
 			}
-			h.wq.Wake()
+			if w := h.window(); len(h.buf)+h.inflight <= w/2 || len(h.buf) == 0 {
+				h.wq.Wake()
+			}
 			if h.cfg.ResetAfterRead > 0 && h.consumed >= h.cfg.ResetAfterRead && !h.rst {
 				simrt.Fault("net-reset")
 				h.rst = true
@@ -188,11 +200,7 @@ func (c *Conn) Write(p []byte) (int, error) {
 		if h.fin {
 			return total, errPipe
 		}
-		win := h.cfg.Window
-		if win <= 0 {
-			win = 256 << 10
-		}
-		room := win - (len(h.buf) + h.inflight)
+		room := h.window() - (len(h.buf) + h.inflight)
 		if room <= 0 {
 			var to time.Duration
 			if !c.wdl.IsZero() {
